@@ -88,13 +88,13 @@ def make_probe_class():
 # graph specifications
 
 
-def rand_delay(rng, period, jitter, allow_overrun):
+def rand_delay(rng, period, jitter, allow_overrun, comm=False):
     kind = rng.choice(["det", "det", "normal"]) if jitter else "det"
     frac = rng.choice([0.0, 0.1, 0.3, 0.5, 0.9]) if not allow_overrun else rng.choice([0.3, 0.9, 1.2, 1.7])
     loc = round(frac * period, 4)
     if kind == "det":
         return dict(kind="det", loc=loc, scale=0.0)
-    return dict(kind="normal", loc=loc, scale=round(rng.choice([0.05, 0.2, 0.5]) * period, 4))
+    return dict(kind="normal", loc=loc, scale=round(rng.choice([0.05, 0.2, 0.5, 1.5] if comm else [0.05, 0.2, 0.5]) * period, 4))
 
 
 def rand_spec(rng, n_nodes=None, tie_stream=False, allow_trainable=False):
@@ -131,7 +131,7 @@ def rand_spec(rng, n_nodes=None, tie_stream=False, allow_trainable=False):
     for (i, j) in sorted(have):
         back = i > j
         period = 1.0 / rates[i]
-        comm = dict(kind="det", loc=rng.choice([0.0, 0.0625, 0.125]), scale=0.0) if tie_stream else rand_delay(rng, period, jitter, False)
+        comm = dict(kind="det", loc=rng.choice([0.0, 0.0625, 0.125]), scale=0.0) if tie_stream else rand_delay(rng, period, jitter, False, comm=True)
         blocking = rng.random() < 0.35
         conns.append(
             dict(src=f"n{i}", dst=f"n{j}", blocking=blocking, skip=bool(back or rng.random() < 0.15), jitter=rng.choice(["LATEST", "LATEST", "BUFFER"]),
